@@ -181,8 +181,38 @@ sys.exit(1 if bad else 0)
 '''
 
 
+PARTITION_HISTORY = '''
+import sys
+import numpy as np
+import onnx
+import onnx_ir as ir
+from onnxscript._internal import builder as _builder
+def trace(opset):
+    graph = ir.Graph(name=f"prog{opset}", inputs=[], outputs=[], nodes=[], opset_imports={"": opset})
+    gb = _builder.GraphBuilder(graph)
+    op = gb.op
+    x = gb.input("x", ir.DataType.FLOAT, [2, 3])
+    m = op.ReduceMean(x, [1], keepdims=0) if opset >= 18 else op.ReduceMean(x, axes=[1], keepdims=0)
+    gb.add_output(m, "y")
+    m.type = ir.TensorType(ir.DataType.FLOAT); m.shape = ir.Shape([2])
+    return graph
+bad = 0
+for opset in (17, 23, 17):
+    try:
+        g = trace(opset)
+        node = next(n for n in g if n.op_type == "ReduceMean")
+        onnx.checker.check_model(ir.to_proto(ir.Model(g, ir_version=9)), full_check=True)
+    except Exception as e:
+        print(f"opset {opset} program traced after the other opset: {type(e).__name__}: {str(e).splitlines()[0][:200]}")
+        bad += 1
+sys.exit(1 if bad else 0)
+'''
+
+
 def replay(ob):
     n = ob["name"]
+    if "C18.builder.partition." in n:
+        return PARTITION_HISTORY
     if "C18.nn.sequential." in n or "C18.nn.module_list." in n:
         return CONTAINERS
     if "call_inline.operands_are_promoted" in n:
